@@ -167,6 +167,45 @@ func (vc *VC) alloc(ins *ssa.Alloc) {
 	r := vc.newRef(ins)
 	t := deref(ins.Type())
 	vc.zeroInit(r, t)
+	// a local whose address never leaves the function cannot be changed by any call: its cells survive every
+	// havoc of the heap (see state.get)
+	if privateAlloc(ins) {
+		for _, k := range vc.zeroKeys(t) {
+			vc.privateRefs[k] = append(vc.privateRefs[k], r)
+		}
+	}
+}
+
+// privateAlloc: the address of the allocation (and of its parts) is only ever used to load and store through it.
+func privateAlloc(a *ssa.Alloc) bool {
+	var ok func(v ssa.Value, depth int) bool
+	ok = func(v ssa.Value, depth int) bool {
+		refs := v.Referrers()
+		if refs == nil || depth > 4 {
+			return false
+		}
+		for _, r := range *refs {
+			switch x := r.(type) {
+			case *ssa.DebugRef:
+			case *ssa.Store:
+				if x.Addr != v || x.Val == v {
+					return false
+				}
+			case *ssa.UnOp:
+				if x.Op != token.MUL {
+					return false
+				}
+			case *ssa.FieldAddr:
+				if x.X != v || !ok(x, depth+1) {
+					return false
+				}
+			default:
+				return false
+			}
+		}
+		return true
+	}
+	return ok(a, 0)
 }
 
 // zeroInit sets the object at ref r of type t to its zero value.
